@@ -714,3 +714,89 @@ class SkipC(FragContract):
 
 CORE = [OptC(), ChoiceC(), LongestC(), SeqC(), DiscardC(), ExpectC(), ExpectNotC(), FailC(), BacktrackC(),
         StrC(), RegexC(), RegexPairC(), ByteC(), RefC(), ListC(), SkipC()]
+
+
+# ---------------------------------------------------------------------------------------------- bounded stand-ins for the leaves
+_LEAF_SEQ = itertools.count(1)
+
+
+def _leaf_bounded(lit_src, is_bytes, skip, ctx, reference, alphabet, maxlen):
+    """the leaf through the PUBLIC interface of a freshly generated grammar (`start = <literal>`, optionally with `ignore` of blanks and
+    a grammar header) on all texts over a small alphabet x every start offset, against python's own matching.  Stands in when
+    the emitted fragment leaves the executor's subset - labelled bounded, never counted as proved.
+    reference(text, q) -> (value, end) | None is the literal's own match at q (no skipping)."""
+    from sourcer import Grammar
+    blank = b' ' if is_bytes else ' '
+    head = f'grammar vleaf{next(_LEAF_SEQ)}\n' if ctx else ''
+    ign = ('ignore b/[ ]+/\n' if is_bytes else 'ignore /[ ]+/\n') if skip else ''
+    g = Grammar(head + ign + f'start = {lit_src}')
+
+    def skipb(text, q):
+        while skip and q < len(text) and text[q:q + 1] == blank:
+            q += 1
+        return q
+    bad, tried = [], 0
+    alpha = list(alphabet) + ([blank] if skip else [])
+    empty = b'' if is_bytes else ''
+    for n in range(maxlen + 1):
+        for t in itertools.product(alpha, repeat=n):
+            text = empty.join(t)
+            for p in range(len(text) + 1):
+                tried += 1
+                q = skipb(text, p)              # the start rule skips leading ignored text
+                r = reference(text, q)
+                want = ('fail',) if r is None else ('ok', r[0], skipb(text, r[1]))
+                try:
+                    v = g.parse(text, pos=p)
+                    got = ('ok', v, len(text))
+                except g.PartialParseError as e:
+                    got = ('ok', e.partial_result, e.last_position.index)
+                except g.ParseError:
+                    got = ('fail',)
+                except Exception as e:
+                    got = ('raised', repr(e))
+                if got != want:
+                    bad.append({'text': repr(text), 'pos': p, 'got': repr(got), 'want': repr(want)})
+                    if len(bad) >= 5:
+                        return bad, tried, f'all texts up to length {maxlen} over {len(alpha)} symbols x every start offset, through Grammar().parse'
+    return bad, tried, f'all texts up to length {maxlen} over {len(alpha)} symbols x every start offset, through Grammar().parse'
+
+
+def _dsl_string(v):
+    body = ''.join(chr(c) if 32 <= c < 127 and chr(c) not in '"\\' else f'\\x{c:02x}' for c in (v if isinstance(v, bytes) else v.encode('latin-1')))
+    return ('b' if isinstance(v, bytes) else '') + '"' + body + '"'
+
+
+def _str_bounded(self, cx):
+    v = STR_VALUES[cx.cfg['value_ix']]
+    isb = isinstance(v, bytes)
+    one = (lambda c: bytes([c])) if isb else chr
+    syms = sorted({one(c) for c in (v if isb else map(ord, v))} | {one(0x78)})[:4]
+    return _leaf_bounded(_dsl_string(v), isb, cx.cfg['skip'], cx.uses_context,
+                         lambda text, q: (v, q + len(v)) if text[q:q + len(v)] == v else None, syms, min(len(v) + 2, 4) if len(v) <= 3 else len(v) + 1 if len(syms) <= 2 else 4)
+
+
+def _regex_bounded(self, cx):
+    import re as _re
+    pat, ic = REGEXES[cx.cfg['re_ix']]
+    isb = isinstance(pat, bytes)
+    rx = _re.compile(pat, _re.IGNORECASE if ic else 0)
+    src = ('b' if isb else '') + '/' + (pat.decode('latin-1') if isb else pat) + '/' + ('i' if ic else '')
+    syms = {'a+': ['a', 'A', 'b'], '[0-9]*': ['0', '7', 'x'], b'\\x00+': [b'\x00', b'\x01'], 'x': ['x', 'X', 'y']}[pat]
+
+    def reference(text, q):
+        m = rx.match(text, q)
+        return None if m is None else (m.group(0), m.end())
+    return _leaf_bounded(src, isb, cx.cfg['skip'], cx.uses_context, reference, syms, 4)
+
+
+def _byte_bounded(self, cx):
+    b = cx.cfg['byte']
+    other = bytes([0x41 if b != 0x41 else 0x42])
+    return _leaf_bounded(f'0x{b:02X}', True, cx.cfg['skip'], cx.uses_context,
+                         lambda text, q: (b, q + 1) if q < len(text) and text[q] == b else None, [bytes([b]), other], 4)
+
+
+StrC.bounded = _str_bounded
+RegexC.bounded = _regex_bounded
+ByteC.bounded = _byte_bounded
